@@ -92,7 +92,7 @@ impl Property for C12 {
     const ID: &'static str = "C12";
 
     fn rule() -> String {
-        "stateful: proptest-generated histories (0..12 ops) of set_location{listed pack k | unknown uuid, location in {empty, ASCII 0..213 bytes, multi-byte UTF-8 of exactly n<=213 bytes (incl. 211, 212, 213), path with .., the original}} interleaved with reopen, over manifests standalone (NoConcat) or inside a container file at small and large offsets (OneFile, TwoFiles; contents of generated size in front of it), 2-4 packs listed. The interpreter applies each op with tools::set_location and to a model map uuid->location. Oracle after every op: return value Ok(Some((kind, previous location))) / Ok(None) with a byte-identical file for an unknown uuid; the file differs from its predecessor only inside bytes 38..256 of that pack-info block (offset from the independent decoder); ManifestPack::new succeeds and its pack infos equal the model (other fields unchanged); ManifestPack::check, ContainerPack::check and the independent decoder's own blake3/CRC verification succeed; when the directory pack is reachable Container::new succeeds, check() is true, entries equal the model and contents of reachable packs equal the model. Non-trivial = >=2 rewrites one of which targets a pack rewritten before, or a multi-byte location at the length limit, or a manifest at offset > 0; distinct by history shape.".into()
+        "stateful: proptest-generated histories (0..12 ops) of set_location{listed pack k | unknown uuid, location in {empty, ASCII 0..213 bytes, multi-byte UTF-8 of exactly n<=213 bytes (incl. 211, 212, 213), path with .., the original}} interleaved with reopen, over manifests standalone (NoConcat) or inside a container file at small and large offsets (OneFile, TwoFiles; contents of generated size in front of it), 2-4 packs listed. The interpreter applies each op with tools::set_location and to a model map uuid->location. Oracle after every op: return value Ok(Some((kind, previous location))) / Ok(None) with a byte-identical file for an unknown uuid; the file differs from its predecessor only inside bytes 38..256 of that pack-info block (offset from the independent decoder); ManifestPack::new succeeds and its pack infos equal the model (other fields unchanged); ManifestPack::check, ContainerPack::check and the independent decoder's own blake3/CRC verification succeed; when the directory pack is reachable Container::new succeeds, check() is true, entries equal the model and contents of reachable packs equal the model. Non-trivial = >=2 rewrites one of which targets a pack rewritten before, or a multi-byte location at the length limit, or a manifest at offset > 0; distinct by history shape. One case in five is assembled with the low-level creators (0/30/70 KB of free data per pack, the directory pack declared after 0..3 content packs); fixed cases: manifests of 270 and 300 packs (pack infos across the 64 KiB buffer the check is computed through), the location of every pack rewritten in turn.".into()
     }
 
     fn cases(tier: Tier) -> u32 {
